@@ -195,3 +195,35 @@ Fixpoint mismatch (t : ty) (j : jv) {struct t} : bool :=
 
 (** A required position: the type refuses null / a missing member. *)
 Definition required (t : ty) : bool := match t with TPtr _ | TOpt _ => false | _ => true end.
+
+(** * Exactly which inputs the argument parsers refuse: a kind mismatch at some position, a string a
+      decoder refuses, or a name the enum does not have.  (Numbers are never refused.) *)
+Section Rejects.
+  Variable b64_dec : string -> option (list Z).
+  Variable time_dec : string -> option tval.
+  Variable text_dec : string -> option string.
+
+  Definition is_none {A} (o : option A) : bool := match o with None => true | Some _ => false end.
+
+  Fixpoint rejects (t : ty) (j : jv) {struct t} : bool :=
+    match t with
+    | TBool => match j with VBool _ => false | _ => true end
+    | TInt _ | TF32 | TF64 => match j with VNum _ _ => false | _ => true end
+    | TString => match j with VStr _ => false | _ => true end
+    | TBytes => match j with VStr s => is_none (b64_dec s) | _ => true end
+    | TTime => match j with VStr s => is_none (time_dec s) | _ => true end
+    | TEnum _ names => match j with VStr s => is_none (lookup s names) | _ => true end
+    | TText => match j with VStr s => is_none (text_dec s) | _ => true end
+    | TPtr t' | TOpt t' => match j with VNull => false | _ => rejects t' j end
+    | TList t' => match j with VArr l => existsb (rejects t') l | _ => true end
+    | TStruct fs =>
+        match j with
+        | VObj o => (fix go (fs : list (string * ty)) : bool :=
+                       match fs with
+                       | [] => false
+                       | (n, t') :: r => rejects t' (field_val n o) || go r
+                       end) fs
+        | _ => true
+        end
+    end.
+End Rejects.
